@@ -14,7 +14,7 @@ for f in os.listdir(src):
     if f == "patch.diff" and a.patch:
         continue
     p = os.path.join(src, f)
-    if os.path.isfile(p) and os.path.getsize(p) < 400000:
+    if os.path.isfile(p) and os.path.getsize(p) < 400000 and open(p, "rb").read(4) != b"\x7fELF":
         shutil.copy(p, os.path.join(dst, f))
 if a.patch and os.path.abspath(a.patch) != os.path.join(dst, "patch.diff"):
     shutil.copy(a.patch, os.path.join(dst, "patch.diff"))
